@@ -36,7 +36,6 @@ import (
 	"fmt"
 	"io"
 	"net"
-	"net/url"
 	"strings"
 	"sync"
 	"testing"
@@ -62,7 +61,7 @@ const (
 	vc16gErrBefore                // status error before reading anything
 	vc16gErrMid                   // read one message, then status error
 	vc16gErrAfter                 // read all, then status error (nothing committed)
-	vc16gPartialOK                // read one message only, commit, SendAndClose(Empty)
+	vc16gPartialOK                // read kp messages only, answer OK with SendAndClose(Empty)
 	vc16gSlowNoCommit             // read K messages, then never answer; client has a short deadline
 	vc16gSlowAfterCommit          // read all, commit, then answer only after the client has given up
 	vc16gCancelMid                // read K messages, the caller's context gets cancelled, nothing committed
@@ -88,6 +87,7 @@ func vc16gDisagree(m int) bool {
 type vc16gScript struct {
 	mode   int
 	k      int // messages to read before the fault, for the modes that use it
+	kp     int // messages to read before answering OK, for the partial read
 	code   codes.Code
 	cancel context.CancelFunc
 
@@ -301,7 +301,7 @@ func (s *vc16gServer) SaveDevicesBillingStat(
 
 		return serr
 	case vc16gPartialOK:
-		if err = read(1); err != nil {
+		if err = read(max(sc.kp, 1)); err != nil {
 			return err
 		}
 
@@ -365,6 +365,71 @@ func (s *vc16gServer) SaveDevicesBillingStat(
 // metadata on unchanged.
 const vc16gRoundKey = "vc16g-round"
 
+// vc16gClientLog observes the client side of the streams of one Refresh.
+type vc16gClientLog struct {
+	mu      sync.Mutex
+	streams []*vc16gClientStream
+}
+
+type vc16gClientStream struct {
+	grpc.ClientStream
+
+	log      *vc16gClientLog
+	sent     []*DeviceBillingStat // messages whose SendMsg returned nil
+	recvDone bool
+	recvErr  error
+}
+
+func (c *vc16gClientLog) intercept(
+	ctx context.Context,
+	desc *grpc.StreamDesc,
+	cc *grpc.ClientConn,
+	method string,
+	streamer grpc.Streamer,
+	opts ...grpc.CallOption,
+) (cs grpc.ClientStream, err error) {
+	cs, err = streamer(ctx, desc, cc, method, opts...)
+	if err != nil {
+		return nil, err
+	}
+
+	st := &vc16gClientStream{ClientStream: cs, log: c}
+	c.mu.Lock()
+	c.streams = append(c.streams, st)
+	c.mu.Unlock()
+
+	return st, nil
+}
+
+func (c *vc16gClientLog) take() (streams []*vc16gClientStream) {
+	c.mu.Lock()
+	defer c.mu.Unlock()
+
+	streams, c.streams = c.streams, nil
+
+	return streams
+}
+
+func (s *vc16gClientStream) SendMsg(m any) (err error) {
+	err = s.ClientStream.SendMsg(m)
+	if msg, ok := m.(*DeviceBillingStat); ok && err == nil {
+		s.log.mu.Lock()
+		s.sent = append(s.sent, msg)
+		s.log.mu.Unlock()
+	}
+
+	return err
+}
+
+func (s *vc16gClientStream) RecvMsg(m any) (err error) {
+	err = s.ClientStream.RecvMsg(m)
+	s.log.mu.Lock()
+	s.recvDone, s.recvErr = true, err
+	s.log.mu.Unlock()
+
+	return err
+}
+
 func vc16gInconclusive(t interface{ FailNow() }, format string, args ...any) {
 	fmt.Println("VERIF-INCONCLUSIVE: " + fmt.Sprintf(format, args...))
 	t.FailNow()
@@ -383,7 +448,8 @@ func TestVerifC16GRPC(t *testing.T) {
 		"server-committed-client-timed-out", "caller-cancelled-mid-stream", "connection-dropped-mid-stream",
 		"connection-dropped-after-commit", "uncommitted-then-committed",
 		"recorded-during-failed-upload-with-earlier-start-time", "recorded-during-failed-upload-with-equal-start-time", "recorded-during-failed-upload-with-later-start-time",
-		"batch-over-4096-devices", "batch-over-4096-devices-with-fault-on-later-rpc")
+		"batch-over-4096-devices", "batch-over-4096-devices-with-fault-on-later-rpc",
+		"backend-answers-ok-before-reading-the-whole-large-batch", "record-with-invalid-utf8-in-batch", "never-deliverable-batch-stays-held")
 	st.Finish(t)
 
 	l, err := net.Listen("tcp", "127.0.0.1:0")
@@ -393,7 +459,10 @@ func TestVerifC16GRPC(t *testing.T) {
 
 	srv := &vc16gServer{conns: map[net.Conn]struct{}{}}
 	srv.cond = sync.NewCond(&srv.mu)
-	g := grpc.NewServer(grpc.Creds(insecure.NewCredentials()))
+	// A fixed 64 KiB window (this also switches the dynamic window off), so
+	// that a batch of thousands of devices does not fit into it and a Send
+	// really observes the end of a stream the server has finished early.
+	g := grpc.NewServer(grpc.Creds(insecure.NewCredentials()), grpc.InitialWindowSize(65535), grpc.InitialConnWindowSize(65535))
 	RegisterDNSServiceServer(g, srv)
 	served := make(chan struct{})
 	go func() {
@@ -406,15 +475,26 @@ func TestVerifC16GRPC(t *testing.T) {
 		<-served
 	})
 
-	upl, err := NewBillStat(&BillStatConfig{
-		Logger:      slogutil.NewDiscardLogger(),
-		ErrColl:     vc16ErrColl{},
-		GRPCMetrics: EmptyGRPCMetrics{},
-		Endpoint:    &url.URL{Scheme: "grpc", Host: l.Addr().String()},
-		APIKey:      "",
-	})
+	// The real uploader on a real grpc-go client connection.  The connection
+	// is made here rather than by NewBillStat only to add an interceptor that
+	// OBSERVES which messages the client has sent successfully on each
+	// stream; nothing is altered.
+	clog := &vc16gClientLog{}
+	conn, err := grpc.NewClient(l.Addr().String(), grpc.WithTransportCredentials(insecure.NewCredentials()),
+		grpc.WithStreamInterceptor(clog.intercept))
 	if err != nil {
-		t.Fatalf("NewBillStat: %v", err)
+		t.Fatalf("grpc.NewClient: %v", err)
+	}
+
+	conn.Connect()
+	t.Cleanup(func() { _ = conn.Close() })
+
+	upl := &BillStat{
+		logger:      slogutil.NewDiscardLogger(),
+		errColl:     vc16ErrColl{},
+		grpcMetrics: EmptyGRPCMetrics{},
+		client:      NewDNSServiceClient(conn),
+		apiKey:      "",
 	}
 
 	const (
@@ -457,10 +537,11 @@ func TestVerifC16GRPC(t *testing.T) {
 			classes:      map[string]bool{},
 		}
 
+		sw := &vc16Switch{real: upl}
 		w.r = billstat.NewRuntimeRecorder(&billstat.RuntimeRecorderConfig{
 			Logger:   slogutil.NewDiscardLogger(),
 			ErrColl:  vc16ErrColl{},
-			Uploader: upl,
+			Uploader: sw,
 			Metrics:  billstat.EmptyMetrics{},
 		})
 
@@ -520,6 +601,16 @@ func TestVerifC16GRPC(t *testing.T) {
 				}
 			}
 
+			for d, held := range heldBefore {
+				if held && w.unmarshalable(d) {
+					w.classes["record-with-invalid-utf8-in-batch"] = true
+				}
+			}
+
+			if sc.mode == vc16gPartialOK && sc.faultStream == 1 && !sc.laterOrOnly && sc.expect >= 5000 && sc.kp < sc.expect {
+				w.classes["backend-answers-ok-before-reading-the-whole-large-batch"] = true
+			}
+
 			if sc.expect > 4096 {
 				w.classes["batch-over-4096-devices"] = true
 				if sc.laterOrOnly {
@@ -534,8 +625,10 @@ func TestVerifC16GRPC(t *testing.T) {
 			srv.rpcs = nil
 			srv.mu.Unlock()
 
+			clog.take()
 			cerr = w.r.Refresh(ctx)
 			ctxErr := ctx.Err()
+			cstreams := clog.take()
 
 			// From here on a handler that starts late is stale.
 			srv.mu.Lock()
@@ -561,25 +654,37 @@ func TestVerifC16GRPC(t *testing.T) {
 				vc16gInconclusive(t, "an upload with a %s deadline ran out of time", longTimeout)
 			}
 
-			// Devices seen in any stream of this upload.
-			seenUpload := map[agd.DeviceID]bool{}
-			for _, rpc := range rpcs {
-				for _, m := range rpc.msgs {
-					seenUpload[agd.DeviceID(m.DeviceId)] = true
-				}
-			}
-
-			for _, rpc := range rpcs {
+			for ri, rpc := range rpcs {
 				nMsg += len(rpc.msgs)
 				seen := map[agd.DeviceID]bool{}
 				batch := map[agd.DeviceID]int64{}
 				nLogged := 0
-				for _, m := range rpc.msgs {
+
+				// The server answered OK having read only a part of the
+				// stream.  If the client reports the upload as successful,
+				// what it has delivered is what it has SENT successfully on
+				// that stream (the client cannot know how much of it the
+				// server chose to read); whatever it has not sent must still
+				// be held.  If the client reports a failure, see below.
+				msgs := rpc.msgs
+				if rpc.committed && rpc.mode == vc16gPartialOK && cerr == nil && len(cstreams) != len(rpcs) {
+					vc16gInconclusive(t, "client streams (%d) and server RPCs (%d) of one upload cannot be matched", len(cstreams), len(rpcs))
+				}
+
+				if rpc.committed && rpc.mode == vc16gPartialOK && cerr == nil {
+					msgs = cstreams[ri].sent
+					w.log = append(w.log, fmt.Sprintf("  server read %d message(s) and answered OK; the client had sent %d on that stream and reports success", len(rpc.msgs), len(msgs)))
+					if len(msgs) > len(rpc.msgs) {
+						w.classes["server-partial-read-ok"] = true
+					}
+				}
+
+				for _, m := range msgs {
 					d := agd.DeviceID(m.DeviceId)
 					if nLogged++; nLogged <= 6 {
 						w.log = append(w.log, "  server read "+vc16gMsgStr(m))
 					} else if nLogged == 7 {
-						w.log = append(w.log, fmt.Sprintf("  ... (%d messages in this stream)", len(rpc.msgs)))
+						w.log = append(w.log, fmt.Sprintf("  ... (%d messages in this stream)", len(msgs)))
 					}
 
 					if seen[d] {
@@ -629,7 +734,7 @@ func TestVerifC16GRPC(t *testing.T) {
 					// failed upload was in flight; its start time against
 					// the held one.
 					for i := range sc.mid {
-						d := vc16Dev(sc.mid[i].Dev)
+						d := w.dev(sc.mid[i].Dev)
 						if !rpc.midDone || !heldBefore[d] || cerr == nil {
 							continue
 						}
@@ -671,18 +776,7 @@ func TestVerifC16GRPC(t *testing.T) {
 					continue
 				}
 
-				// Committed.  For a partial read the server has answered OK
-				// for the whole upload: what it did not read is delivered by
-				// the documented meaning, and is credited from the model.
-				if rpc.mode == vc16gPartialOK {
-					for d := range recBefore {
-						if _, read := batch[d]; !read && !seenUpload[d] && recBefore[d] > w.delivered[d] {
-							batch[d] = recBefore[d] - w.delivered[d]
-							w.classes["server-partial-read-ok"] = true
-						}
-					}
-				}
-
+				// Committed: accepted by the server.
 				for d, q := range batch {
 					w.delivered[d] += q
 					if uncommitted[d] {
@@ -738,6 +832,9 @@ func TestVerifC16GRPC(t *testing.T) {
 			big = rapid.SampledFrom([]int{4097, 5000, 4096, 4095, 8200, 12300}).Draw(t, "bigDevices")
 			nRounds = min(nRounds, 3)
 			bigRound = rapid.IntRange(0, min(1, nRounds-1)).Draw(t, "bigRound")
+		} else if nDev > 1 && rapid.IntRange(0, 15).Draw(t, "badDevice") == 9 {
+			// One device whose ID is not valid UTF-8.
+			w.badDev = nDev - 1
 		}
 
 		key := &strings.Builder{}
@@ -754,7 +851,7 @@ func TestVerifC16GRPC(t *testing.T) {
 				rc := vc16DrawRec(t, nDev)
 				rc.DoneCtx = false
 				fmt.Fprintf(key, "%d,", rc.Dev)
-				delete(agreed, vc16Dev(rc.Dev))
+				delete(agreed, w.dev(rc.Dev))
 				w.record(&rc)
 			}
 
@@ -765,6 +862,15 @@ func TestVerifC16GRPC(t *testing.T) {
 				code: rapid.SampledFrom([]codes.Code{codes.Unavailable, codes.Internal, codes.DeadlineExceeded, codes.Unauthenticated,
 					codes.ResourceExhausted}).Draw(t, "code"),
 				faultStream: rapid.SampledFrom([]int{1, 1, 2, 1, 3}).Draw(t, "faultStream"),
+				kp:          rapid.SampledFrom([]int{1, 3, 500, 1, 3000}).Draw(t, "readBeforeOK"),
+			}
+
+			// A large batch that the backend answers with OK before it has
+			// read all of it: the batch does not fit into the stream window,
+			// so the client's Send observes the end of the stream.
+			earlyOK := i == bigRound && big >= 5000 && rapid.IntRange(0, 2).Draw(t, "earlyOK") == 1
+			if earlyOK {
+				sc.mode, sc.faultStream = vc16gPartialOK, 1
 			}
 
 			// The behaviours that need a short client deadline are only
@@ -778,7 +884,7 @@ func TestVerifC16GRPC(t *testing.T) {
 			// opens one, on the only stream otherwise: mostly for the round
 			// with the many devices.
 			lo := rapid.IntRange(0, 7).Draw(t, "laterOrOnly")
-			if (i == bigRound && lo != 5) || lo == 3 {
+			if !earlyOK && ((i == bigRound && lo != 5) || lo == 3) {
 				sc.laterOrOnly = true
 				switch sc.mode {
 				case vc16gErrBefore, vc16gErrMid, vc16gErrAfter, vc16gDropBefore, vc16gDropMid:
@@ -817,20 +923,24 @@ func TestVerifC16GRPC(t *testing.T) {
 		for i := 0; i < 20 && !flushed; i++ {
 			cerr, nMsg := refresh(&vc16gScript{mode: vc16gAck, code: codes.Unavailable})
 			flushed = cerr == nil && nMsg == 0
-		}
 
-		if !flushed {
-			vc16gInconclusive(t, "the recorder still has something to send, or the client keeps failing, after 20 acknowledged flushes")
-		}
+			// A record that cannot be marshaled fails every upload that
+			// carries it: the batch stays held, which is not a loss.
+			stuck := false
+			for d := range w.recorded {
+				stuck = stuck || (w.recorded[d] > w.delivered[d] && w.unmarshalable(d))
+			}
 
-		for d := range w.recorded {
-			switch c, r := w.delivered[d], w.recorded[d]; {
-			case c < r:
-				w.fatalf("lost: after the final acknowledged flushes the server has committed %d queries for %s, %d were recorded", c, d, r)
-			case c > r+allow[d]:
-				w.fatalf("double counting: the server has committed %d queries for %s, %d were recorded (legitimately repeatable: %d)", c, d, r, allow[d])
+			if stuck && i >= 1 {
+				w.classes["never-deliverable-batch-stays-held"] = true
+
+				break
 			}
 		}
+
+		// What is still held is observed exactly; delivered (accepted by the
+		// server) + held == recorded for every device.
+		w.checkHeld(w.drainHeld(sw), allow)
 
 		cl := []string{}
 		for c := range w.classes {
